@@ -11,3 +11,21 @@ package numpin
 //@   property C18
 //@   opts own
 //@   modifies heap(Informer)
+
+// ---- C15: the section's saved form ----
+//@ func (cfg *Config) toJSONConfig
+//@   property C15
+//@   requires cfg != nil
+//@   ensures res != nil && fresh(res)
+//@   ensures [metric-ttl] res.MetricTTL == cfg.MetricTTL.String()
+//@   modifies nothing
+
+//@ func (cfg *Config) Validate
+//@   property C15
+//@   modifies nothing
+
+//@ func (cfg *Config) applyJSONConfig
+//@   property C15
+//@   requires cfg != nil && jcfg != nil
+//@   ensures [metric-ttl] cfg.MetricTTL == libfn("time.ParseDuration", 0, jcfg.MetricTTL)
+//@   modifies heap(Config)
